@@ -45,7 +45,7 @@ RULE = (
 ASSUMPTIONS = [
     "line-based protocol (StringLineSerializer, ascii): a malformed frame is a line with a non-ascii byte; frame contents are irrelevant to the server beyond identity",
     "an arrival never shares a loop iteration with the expiry of a yielded timeout (C10's subject): untimed events are withheld while a loop timer is due within 10 ms or a zero-delay timeout is being delivered; timed delays keep >= 50 ms from deadlines",
-    "after a connection reset (as opposed to EOF) requests not yet handed to the handler may be lost: only order/exactly-once of the delivered prefix is required",
+    "after a connection reset (as opposed to EOF) requests not yet handed to the handler may be lost: only order/exactly-once of the delivered prefix is required; the handler ignores whatever send_packet raises after a reset (counted, not judged: C20's subject)",
     "a request whose bytes reached the transport but not yet the server's parser when a zero-delay timeout is yielded may legitimately time out (one checkpoint is needed to fetch it); a request already parsed-and-buffered by the server may not",
     "when on_connection is a generator and the handler itself closes the client inside it, on_disconnection may or may not run (documentation is ambiguous)",
     "one client per execution; TLS listeners and server shutdown with live clients are C08/C17/C18's subject",
@@ -137,13 +137,14 @@ class Body:
                     await asyncio.sleep(0)
                 try:
                     await client.send_packet(resp)
-                except ConnectionError:
-                    rec.send_failed = getattr(rec, "send_failed", 0) + 1  # only after the peer reset the connection
+                except Exception as exc:  # noqa: BLE001 - only legitimate after the peer reset the connection (checked by the oracle)
+                    rec.send_failed = getattr(rec, "send_failed", 0) + 1
+                    rec.send_failed_types = getattr(rec, "send_failed_types", set()) | {type(exc).__name__}
                 if shape.aclose_at == rec.items:
                     try:
                         await client.aclose()
-                    except ConnectionError:
-                        pass
+                    except Exception:  # noqa: BLE001 - idem
+                        rec.send_failed = getattr(rec, "send_failed", 0) + 1
                     rec.add("aclose")
         finally:
             rec.gen_final(g)
@@ -281,6 +282,7 @@ def run_one(ctx: Ctx, cfg: dict) -> dict:
     out["placed_busy"] = script.placed_busy
     out["disc_closing"] = getattr(rec, "disc_closing", None)
     out["send_failed"] = getattr(rec, "send_failed", 0)
+    out["send_failed_types"] = sorted(getattr(rec, "send_failed_types", ()))
     out["unhandled"] = [u.get("exception") or u.get("message") for u in vloop.collect_unhandled(loop)]
     # availability of each complete frame: logical clock (number of events applied before it became complete) and time
     avail = []
@@ -465,7 +467,7 @@ def oracle(cfg: dict, obs: dict) -> tuple[str | None, str, dict]:
     if not obs["closed"]:
         return "connection-not-closed", "the client socket is still open at quiescence", notes
     if obs["send_failed"] and cfg.get("end", "eof") != "reset":
-        return "send-failed-without-reset", f"send_packet raised ConnectionError {obs['send_failed']} time(s) although the peer never reset the connection", notes
+        return "send-failed-without-reset", f"send_packet/aclose raised {obs['send_failed_types']} {obs['send_failed']} time(s) although the peer never reset the connection", notes
     if obs["tx"] != tx and not (obs["send_failed"] and tx.startswith(obs["tx"])):
         return "responses-differ", f"client received {obs['tx']!r}, reference {tx!r}", notes
     if not obs["serving"]:
@@ -697,6 +699,8 @@ def run_job(job: dict) -> JobResult:
                     res.count("executions_with_busy_placement")
                 if obs["unhandled"]:
                     res.count("executions_with_loop_exception_handler_calls")
+                for t in obs["send_failed_types"]:
+                    res.count("info_send_packet_after_peer_reset_raised_" + t)
                 if obs["disc_closing"] is False:
                     res.count("info_on_disconnection_saw_is_closing_False")
             else:
